@@ -1161,17 +1161,21 @@ class ConfigInformation:
         # Serialize sub-objects
         for argument, value in self.xpmvalues():
             if value is not None:
-                ConfigInformation.__collect_objects__(value, objects, context)
+                with context.push(argument.name):
+                    ConfigInformation.__collect_objects__(value, objects, context)
 
         # Adds task
         if self.task is not None and self.task is not self:
-            ConfigInformation.__collect_objects__(self.task, objects, context)
+            with context.push("__task__"):
+                ConfigInformation.__collect_objects__(self.task, objects, context)
 
         # Serialize pre-tasks
-        ConfigInformation.__collect_objects__(self.pre_tasks, objects, context)
+        with context.push("__pre_tasks__"):
+            ConfigInformation.__collect_objects__(self.pre_tasks, objects, context)
 
         # Serialize initialization tasks
-        ConfigInformation.__collect_objects__(self.init_tasks, objects, context)
+        with context.push("__init_tasks__"):
+            ConfigInformation.__collect_objects__(self.init_tasks, objects, context)
 
         # Serialize ourselves
         state_dict = {
@@ -1221,11 +1225,13 @@ class ConfigInformation:
         if isinstance(value, Config):
             value.__xpm__.__get_objects__(objects, context)
         elif isinstance(value, list):
-            for el in value:
-                ConfigInformation.__collect_objects__(el, objects, context)
+            for ix, el in enumerate(value):
+                with context.push(str(ix)):
+                    ConfigInformation.__collect_objects__(el, objects, context)
         elif isinstance(value, dict):
-            for el in value.values():
-                ConfigInformation.__collect_objects__(el, objects, context)
+            for key, el in value.items():
+                with context.push(str(key)):
+                    ConfigInformation.__collect_objects__(el, objects, context)
         elif isinstance(value, (Path, int, float, str, Enum)):
             pass
         else:
